@@ -1,9 +1,11 @@
 package c05
 
 import (
+	"context"
 	"fmt"
 	"math"
 	"strings"
+	"time"
 
 	"pgregory.net/rapid"
 
@@ -270,21 +272,28 @@ func genRepeat(t *rapid.T) RepCase {
 		// one operator site called for a row of (string, count) pairs of different magnitudes
 		c := RepCase{Form: "site"}
 		n := rapid.IntRange(2, 5).Draw(t, "npairs")
+		// a row either holds counts of any size - then every string of it is the empty one - or
+		// non-empty strings - then every count of it is affordable with every string of it (see repSafe)
+		hugeRow := rapid.Bool().Draw(t, "hugerow")
 		for i := 0; i < n; i++ {
 			var l, r *Node
-			switch rapid.IntRange(0, 5).Draw(t, "pairing") {
-			case 0, 1, 2:
+			pairing := rapid.IntRange(0, 5).Draw(t, "pairing")
+			switch {
+			case hugeRow:
 				l = &Node{Op: "leaf", K: "s", Prov: "lit"}
 				r = repWideCount(t)
 				if r.Op != "leaf" {
 					r = repWideCountPos(t)
 				}
-			case 3:
+			case pairing <= 2:
 				l = repFull(t)
 				r = repAffordable(t, l.S)
-			case 4:
+			case pairing == 3:
 				l = repFull(t)
 				r = repLeafI(t, rapid.SampledFrom(repCountsNeg).Draw(t, "cneg"))
+			case pairing == 4:
+				l = &Node{Op: "leaf", K: "s", Prov: "lit"}
+				r = repLeafI(t, rapid.SampledFrom([]int64{7, 8, 100, 255, 256, 4095, 4096, 4097, 20000}).Draw(t, "emptymid"))
 			default:
 				l = genLeaf(t, "s")
 				r = smallCountLeaf(t)
@@ -314,8 +323,138 @@ func genRepeat(t *rapid.T) RepCase {
 	default:
 		c.Root = rn
 	}
+	repSanitize(c.Root)
 	return c
 }
+
+// ---------- resource guard against a MISROUTED operand ----------
+
+// The guard computed from the reference bounds what a correct interpreter builds. An interpreter
+// that hands an operator a wrong operand of the same program (the left operand of another
+// operator, what the same site saw before) is not bounded by it: `"" * (("s" + nosuchname) ?? 1099511627776)`
+// is "" by the reference, and one terabyte once the `*` is given the "s". So the guard is on the
+// PROGRAM: a count above 20000 never stands in one program with a non-empty string (a leaf, or a
+// string literal inside the failing left side of a `??`) or with a `+` under a `*` (which makes a
+// non-empty string of "" and any number it is wrongly given: seen with seeded change C05-24,
+// `(((X ?? "") * 123456789012) + ((1 < nosuchname) ?? "")) * id(6442450944)` repeated "1"). Then
+// whatever pairing of the program's own operand values a `*` is given, it repeats the empty
+// string or multiplies numbers; without such a count the largest operands are 20000 bytes and 20000.
+const repBudget = 20000
+
+func coalHasString(f int) bool {
+	return f >= 0 && f < len(coalLeft) && strings.Contains(coalLeft[f], "\"")
+}
+
+type repSafety struct {
+	nonEmpty    bool    // a non-empty string leaf, a string literal in a ?? left side, or a `+` under a `*`
+	hugeInCount bool    // a value above repBudget in (or under) a count position, or computed anywhere
+	hugeOutside []*Node // integer leaves above repBudget elsewhere (operands of +)
+}
+
+func (rs *repSafety) walk(n *Node, underCount, underStar bool) {
+	if n == nil {
+		return
+	}
+	if n.Op == "leaf" {
+		if n.Prov == "coal" && coalHasString(n.F) {
+			rs.nonEmpty = true
+		}
+		switch n.K {
+		case "s":
+			if n.S != "" {
+				rs.nonEmpty = true
+			}
+		case "i":
+			if n.I > repBudget {
+				if underCount {
+					rs.hugeInCount = true
+				} else {
+					rs.hugeOutside = append(rs.hugeOutside, n)
+				}
+			}
+		}
+		return
+	}
+	if v, failed := refEval(n, &stats{}); !failed && v.k == "i" && v.i > repBudget {
+		rs.hugeInCount = true // computed: cannot be clamped
+	}
+	if n.Op == "+" && underStar {
+		// a `+` whose result is (part of) an operand of a `*`: given a wrong operand - any number of
+		// the program - it makes a non-empty string ("" + 1 is "1") BEFORE the `*` is evaluated. A `+`
+		// above every `*` is harmless: its result is made when all repeats are done.
+		rs.nonEmpty = true
+	}
+	if n.Op == "*" && n.R != nil {
+		// the right operand of every `*` counts as a count position (which it is in the trees of this sub-check)
+		rs.walk(n.L, underCount, true)
+		rs.walk(n.R, true, true)
+		return
+	}
+	rs.walk(n.L, underCount, underStar)
+	rs.walk(n.R, underCount, underStar)
+}
+
+// repSafe: no count above the budget in one program with a non-empty string.
+func repSafe(root *Node) bool {
+	rs := &repSafety{}
+	rs.walk(root, false, false)
+	return !rs.nonEmpty || (!rs.hugeInCount && len(rs.hugeOutside) == 0)
+}
+
+// repSanitize makes a generated tree safe: where a count above the budget meets non-empty strings,
+// the strings become empty ones, the left sides of ?? lose their string literals and a `+` under
+// a `*` is replaced by its left operand; a large number that is only an operand of `+` is brought
+// into 0..20000 instead.
+func repSanitize(root *Node) {
+	st := &stats{}
+	refEval(root, st)
+	if st.tooLong {
+		return // excluded by the reference guard: never run
+	}
+	rs := &repSafety{}
+	rs.walk(root, false, false)
+	if !rs.nonEmpty {
+		return
+	}
+	if rs.hugeInCount {
+		repEmptyAll(root, false)
+		return
+	}
+	for _, n := range rs.hugeOutside {
+		n.I %= repBudget + 1
+	}
+}
+
+func repEmptyAll(n *Node, underStar bool) {
+	if n == nil {
+		return
+	}
+	for n.Op == "+" && underStar && n.L != nil {
+		*n = *n.L // a `+` under a `*` goes: its left operand stands for it
+	}
+	if n.Op == "leaf" {
+		if n.K == "s" {
+			n.S = ""
+		}
+		if n.Prov == "coal" && coalHasString(n.F) {
+			n.F = 1 // (2 + nosuchname)
+		}
+		return
+	}
+	repEmptyAll(n.L, underStar || n.Op == "*")
+	repEmptyAll(n.R, underStar || n.Op == "*")
+}
+
+// repExec runs one program of this sub-check with a time limit (a spinning interpreter is not judged).
+func repExec(src string) (got interface{}, err error, timedOut bool) {
+	ctx, cancel := context.WithTimeout(context.Background(), 5*time.Second)
+	defer cancel()
+	got, err = ank.ExecCtx(ctx, newEnv(), src)
+	return got, err, ctx.Err() != nil
+}
+
+const repUnsafe = "repeat: a count above 20000 in one program with a non-empty string or a + under a * (resource guard against a misrouted operand, never run)"
+const repSlow = "repeat: did not finish within 5 s (not judged)"
 
 // repOutOfRange: the count of the node (a leaf) lies outside the -2..6 of the other sub-checks.
 func repOutOfRange(r repStats) bool {
@@ -342,6 +481,10 @@ func oracleRepeat(c RepCase, o *h.Obs) *h.Fail {
 			}
 			return nil
 		}
+		if !repSafe(c.Root) {
+			o.Excluded = repUnsafe
+			return nil
+		}
 		if st.rep.nodes == 0 && !wantErr {
 			// an error in an operand (`%` by zero inside a computed count) ends the evaluation before the repeat: fine; a tree without a repeat is not a case of this sub-check
 			o.Excluded = "malformed_case"
@@ -361,7 +504,11 @@ func oracleRepeat(c RepCase, o *h.Obs) *h.Fail {
 		}
 		// the root operator is part of the signature: under a `+` the concatenation may be what fails, not the repeat
 		region := "root" + c.Root.Op + "|" + st.rep.region()
-		got, err := ank.Exec(newEnv(), src)
+		got, err, slow := repExec(src)
+		if slow {
+			o.Excluded = repSlow
+			return nil
+		}
 		if hp, ok := ank.IsHostPanic(err); ok {
 			return h.Failf("C05|host-panic|"+ank.NormPanic(hp.Value), "source:\n%s\nescaped panic: %v", src, hp.Value)
 		}
@@ -418,6 +565,15 @@ func oracleRepeat(c RepCase, o *h.Obs) *h.Fail {
 			}
 			sb.WriteString("try {\n r += [f(" + p.leafLit(n.L) + ", " + cnt + ")]\n} catch e {\n r += [\"ERR\"]\n}\n")
 		}
+		rowHuge, rowNonEmpty := false, false
+		for _, n := range c.Pairs {
+			rowHuge = rowHuge || n.R.I > repBudget
+			rowNonEmpty = rowNonEmpty || n.L.S != ""
+		}
+		if rowHuge && rowNonEmpty {
+			o.Excluded = repUnsafe
+			return nil
+		}
 		sb.WriteString("r")
 		src := sb.String()
 		o.Key = src
@@ -426,7 +582,11 @@ func oracleRepeat(c RepCase, o *h.Obs) *h.Fail {
 		if len(regions) >= 2 {
 			o.Class("repeat_site_counts_of_two_or_more_regions")
 		}
-		got, err := ank.Exec(newEnv(), src)
+		got, err, slow := repExec(src)
+		if slow {
+			o.Excluded = repSlow
+			return nil
+		}
 		if hp, ok := ank.IsHostPanic(err); ok {
 			return h.Failf("C05|host-panic|"+ank.NormPanic(hp.Value), "source:\n%s\nescaped panic: %v", src, hp.Value)
 		}
